@@ -85,6 +85,21 @@ where
     }
 }
 
+impl<F: Future> Drop for JoinAll<F> {
+    fn drop(&mut self) {
+        // An output has been written for exactly the vacant slots of the queue
+        // (the buffer is empty once the result has been handed out).
+        // Outputs collected before an early drop would otherwise leak.
+        for (i, out) in self.output.iter_mut().enumerate() {
+            if self.queue.tasks.get(i).is_none() {
+                // SAFETY: slot `i` is vacant because its future completed, and
+                // its output was written to `output[i]` and not read since.
+                unsafe { out.assume_init_drop() };
+            }
+        }
+    }
+}
+
 impl<F: Future> Future for JoinAll<F> {
     type Output = Vec<F::Output>;
 
